@@ -158,6 +158,7 @@ func (rt *c15RT) RoundTrip(req *http.Request) (*http.Response, error) {
 		return mkResp(req, 200, &eofBody{b: []byte(`{"Val`)}), nil
 	case outcome == "stall":
 		<-ctx.Done()
+		w.Yield("rpc-return")
 		return nil, ctx.Err()
 	case outcome == "malformed":
 		return mkResp(req, 200, io.NopCloser(strings.NewReader("<html>not json</html>"))), nil
@@ -183,7 +184,9 @@ func (rt *c15RT) RoundTrip(req *http.Request) (*http.Response, error) {
 	})
 	select {
 	case <-resCh:
+		w.Yield("rpc-return")
 	case <-ctx.Done():
+		w.Yield("rpc-return")
 		att.Seen = "ctx"
 		return nil, ctx.Err()
 	}
@@ -385,7 +388,7 @@ func c15Run(r *core.Run) {
 			for _, op := range ops {
 				op.Task = name
 				if op.Delay > 0 {
-					time.Sleep(op.Delay)
+					w.Sleep(op.Delay)
 				}
 				if op.UseHandleOf != nil {
 					if op.UseHandleOf.Handle == nil {
@@ -410,7 +413,7 @@ func c15Run(r *core.Run) {
 					key = k
 					op.Handle = k
 				}
-				time.Sleep(time.Duration(w.T.Choose(300, "think")) * 10 * time.Millisecond)
+				w.Sleep(time.Duration(w.T.Choose(300, "think")) * 10 * time.Millisecond)
 			}
 		}
 		for i := 0; i < ntasks; i++ {
@@ -422,11 +425,11 @@ func c15Run(r *core.Run) {
 			})
 		}
 		for i := 0; i < ntasks; i++ {
-			<-done
+			world.Recv(w, done)
 		}
 		// faults stop: bounded liveness
 		rt.quiet = true
-		time.Sleep(time.Duration(cacheS+1) * time.Second)
+		w.Sleep(time.Duration(cacheS+1) * time.Second)
 		for _, l := range labels {
 			op := &c15Op{ID: 2000 + len(allOps), Task: "main", Kind: "sign", Label: l, CtxMode: "none", Final: true}
 			pre := &c15Op{ID: 3000 + len(allOps), Task: "main", Kind: "getkey", Label: l, CtxMode: "none", Final: true}
@@ -686,6 +689,7 @@ func c15Do(w *world.World, rt *c15RT, wt *worker.WorkerToken, op *c15Op, key tok
 		}
 	}
 	op.End = w.Since()
+	w.Yield("op-done") // woken by timers/contexts: re-enter the schedule before touching the tape
 	for _, a := range op.Attempts {
 		classify(a, nil)
 	}
